@@ -389,7 +389,7 @@ class Builder:
                 self.emit(self.quote("World"))
         elif form in ("t-ctx", "pgettext"):
             self.emit(":" + self.ws())
-            if form == "t-ctx" and self.lay.chance(0.25):
+            if self.lay.chance(0.25):
                 # a message variable as keyword argument in front of the positional context
                 self.emit("you:" + self.ws() + self.quote("World"))
                 sep()
@@ -427,6 +427,9 @@ class Builder:
                 site["count"] = ["none"]
         elif form in ("ngettext", "ngettext-dynplural"):
             self.emit(":" + self.ws())
+            if self.lay.chance(0.25):  # a message variable in front of the positional arguments
+                self.emit("you:" + self.ws() + self.quote("World"))
+                sep()
             if form == "ngettext":
                 site["plural"] = lit("p")
             else:
@@ -435,6 +438,9 @@ class Builder:
             site["count"] = self.emit_count("ngettext", count_how)
         elif form in ("npgettext", "npgettext-dynctx"):
             self.emit(":" + self.ws())
+            if self.lay.chance(0.25):
+                self.emit("you:" + self.ws() + self.quote("World"))
+                sep()
             if form == "npgettext":
                 site["context"] = lit("c")
             else:
